@@ -3,7 +3,13 @@
 The real Dispatcher + modules run under the deterministic scheduler (vlib.sched): request threads `h<cid>` (one per
 connection, a script of activate/deactivate/ident/disconnect) and updater threads `u<k>` (a script of assignments).
 Every explored schedule is (1) replayed label by label on the Lean model (`k: replay`) and compared through the
-observable trace, (2) judged by the Lean monitors (`k: judge`).  Nothing about the property is decided here.
+observable trace, the final cache and the dispatcher's tables after every completed operation, (2) judged by the Lean
+monitors (`k: judge`).  Nothing about the property is decided here.
+
+Two families of schedules: fine-grained ones (non-preempting default + bounded deviations / random walks, at the yield points
+request arrival `recv`, lock acquire / release, send) for short scenarios, and operation-level histories (`SerialPolicy`:
+whole requests / assignments in a given or random global order) for long scenarios, where what one operation leaves behind
+in the tables shows in what a later operation of another thread does.
 """
 import json
 import os
@@ -21,24 +27,34 @@ from vlib.shrink import ddmin
 
 META = {
     'level_text': 'Theorems (for all interleavings of any number of connections and updaters, all module/parameter names as strings, any '
-                  'outcome of the logging switch-off, on the labelled transition system that models the repaired dispatcher): '
-                  'snapshot_complete, no_loss, quiescent_last_eq_cache, silent_after_deactivate (+ explicit index form), '
-                  'others_unaffected, deactivate_exact (the string tests of unsubscribe = the matching deactivate), deadlock_free.  The model is tied to frappy/protocol/dispatcher.py and modulebase.announceUpdate '
-                  'by replaying every explored schedule of the real code label by label (lock acquire/release, send, end) on the model '
-                  'and comparing the global observable trace and the final cache; the Lean monitors of Spec/C08 judge every '
-                  'implementation trace.',
-    'level_note': 'Trusted: Lean kernel + axioms propext/Classical.choice/Quot.sound; the deterministic scheduler preempts only at lock '
-                  'and send primitives; threading.RLock, the TCP handler send lock and set iteration order are modelled, not verified; '
-                  'omit_unchanged_within = 0.',
+                  'outcome of the logging switch-off, any per-parameter choice of "unchanged values are / are not re-announced", on the '
+                  'labelled transition system that models the repaired dispatcher): '
+                  'snapshot_complete, no_loss, quiescent_last_eq_cache, silent_after_deactivate, each also in an index form that says the '
+                  'English sentence without the monitor (silent_after_deactivate_explicit, snapshot_complete_explicit with replies_match, '
+                  'no_loss_explicit with firm_in_force_explicit; snapshot_monitor_sound / noloss_monitor_sound for ANY trace, i.e. also '
+                  'for the implementation traces the monitors judge), others_unaffected, tables_others_unaffected + broadcast_leaves_tables '
+                  '(no action changes a table row of another connection; an updater changes none), tables_own (every table entry under '
+                  'whatever key is an activation of that very connection still possibly in force), deactivate_exact (the string tests of '
+                  'unsubscribe = the matching deactivate), only_exported (no update of a parameter / module that is not exported is ever '
+                  'delivered, whatever is activated or assigned), deadlock_free.  The model is tied to frappy/protocol/dispatcher.py and '
+                  'modulebase.announceUpdate by replaying every explored schedule of the real code label by label (request arrival, lock '
+                  'acquire/release, send, end) on the model and comparing the global observable trace, the final cache and the '
+                  'dispatcher\'s tables (_active_connections, _subscriptions) after every completed operation; the Lean monitors of '
+                  'Spec/C08 judge every implementation trace.',
+    'level_note': 'Trusted: Lean kernel + axioms propext/Classical.choice/Quot.sound; the deterministic scheduler preempts only at request '
+                  'arrival, lock and send primitives; threading.RLock, the TCP handler send lock and set iteration order are modelled, not '
+                  'verified; the omit window of a parameter is either 0 or longer than the run.',
     'trusted': [
-        'the scheduler yields only at lock acquire/release and at send_reply: a preemption inside broadcast_event between the three '
-        'set reads is not exercised by the harness (the model covers it by the lock discipline: the sets are only read and written '
-        'under _subscription_lock)',
-        'omit_unchanged_within = 0: every value assignment is announced',
-        'paramCallbacks fire right after the store under the update lock and before the broadcast (this is where the harness '
-        'records the `emit` event)',
+        'the scheduler yields only at request arrival, lock acquire/release and at send_reply: a preemption inside broadcast_event '
+        'between the three set reads is not exercised by the harness (the model covers it by the lock discipline: the sets are only read '
+        'and written under _subscription_lock, and the tables are compared with the model after every completed operation)',
+        'omit window for unchanged values: per parameter either 0 (update_unchanged=\'always\') or longer than the run '
+        '(update_unchanged=\'never\', a long omit_unchanged_within); a window that ends during a run is not modelled',
+        'the `emit` event is recorded by a paramCallback, i.e. right after the store under the update lock and before the broadcast '
+        '(a different order in announceUpdate shows as a correspondence disagreement, not as a verdict)',
         'the reply of a request is sent by the connection thread after handle_request returned, outside every dispatcher lock '
-        '(frappy/protocol/interface/handler.py), which the harness thread reproduces',
+        '(frappy/protocol/interface/handler.py), which the harness thread reproduces; the request marker is written by the harness '
+        'thread right after the `recv` scheduling point',
     ],
     'modelled_not_verified': [
         'Python threading.RLock semantics (mutual exclusion, re-entrance, no fairness)',
@@ -46,8 +62,48 @@ META = {
         'iteration order of the listener set in broadcast_event (the model allows any order; the replay follows the real one)',
     ],
     'assumptions': ['updaters assign through setattr / announceUpdate only; values are integral floats; errors are SECoP error classes',
-                    'one request thread per connection; a connection is disconnected by its own thread'],
+                    'one request thread per connection; a connection is disconnected by its own thread',
+                    'updates are produced by updater (poller) threads, not by read/change requests of a connection'],
 }
+
+
+class SerialPolicy:
+    """operation-level interleaving: a thread that has started a request / an assignment runs it to its end (all locks
+    released, reply sent); between operations the next thread is taken from `order` (thread names, one entry per
+    operation) or, when `order` is None, drawn from `rng`.  `p_fine` > 0 adds a few ordinary preemptions inside operations.
+    `run_case` binds the scheduler and the per-thread "stands at the start of an operation" flags."""
+
+    def __init__(self, order=None, rng=None, p_fine=0.0):
+        self.order = None if order is None else list(order)
+        self.rng, self.p_fine = rng, p_fine
+        self.sched, self.boundary = None, {}
+
+    def bind(self, sched, boundary):
+        self.sched, self.boundary = sched, boundary
+
+    def choose(self, enabled, default, step, labels):
+        prev = self.sched.current if self.sched is not None else None
+        if prev in enabled and not self.boundary.get(prev.name):
+            if self.p_fine and self.rng.random() < self.p_fine:
+                return self.rng.randrange(len(enabled))
+            return enabled.index(prev)
+        if self.order is not None:
+            while self.order:
+                name = self.order.pop(0)
+                for i, t in enumerate(enabled):
+                    if t.name == name:
+                        return i
+            return 0
+        return self.rng.randrange(len(enabled))
+
+
+def policy_for(case):
+    if 'choices' in case:
+        return ReplayThenDefault(case['choices'])
+    if 'serial' in case:
+        return SerialPolicy(order=case['serial'])
+    return ReplayThenDefault([])
+
 
 ERRS = [(HardwareError, HardwareError.name), (CommunicationFailedError, CommunicationFailedError.name)]
 # attribute names updaters assign to; exported as value, target, target_max, _a, _ab: `target`/`target_max` and `_a`/`_ab`
@@ -60,6 +116,7 @@ class M(Readable):
     ab = Parameter('y', FloatRange(), default=0.0, readonly=False)
     target = Parameter('t', FloatRange(), default=0.0, readonly=False)
     target_max = Parameter('tm', FloatRange(), default=0.0, readonly=False, export='target_max')
+    h = Parameter('not exported', FloatRange(), default=0.0, readonly=False, export=False)
 
     @Command()
     def go(self):
@@ -131,9 +188,10 @@ class Info:
 
 
 class SConn(Conn):
-    def __init__(self, cid, sched, events, info, stat):
+    def __init__(self, cid, sched, events, info, stat, completed=None):
         super().__init__(cid, sched)
         self.events, self.info, self.stat = events, info, stat
+        self.completed = completed or (lambda: None)
         self.current = None       # the request in progress (set by the handler thread)
 
     def __hash__(self):           # deterministic iteration order of the dispatcher's listener sets
@@ -152,6 +210,7 @@ class SConn(Conn):
                 self.stat['snap'] += 1
         elif msg[0] != 'log':
             self.events.append(['reply', self.cid, self.current, not msg[0].startswith('error_')])
+            self.completed()
             self.current = None
 
 
@@ -177,15 +236,26 @@ def _label(label, info):
         return ['send', label[1]]
     if label == ('end',):
         return ['end']
+    if label == ('recv',):
+        return ['recv']
     return str(label)
 
 
 def run_case(case, policy):
     """run one case on the real code under the scheduler; returns (scheduler, observation dict)"""
     s = Scheduler(policy=policy, max_steps=5000)
-    events, emitted, blocked = [], {}, []
-    stat = {'bcast': 0, 'snap': 0, 'during': 0, 'after': 0}
-    orig_block = s.block
+    events, emitted, blocked, tabs, boundary = [], {}, [], [], {}
+    stat = {'bcast': 0, 'snap': 0, 'during': 0, 'after': 0, 'dropped': 0, 'hidden': 0}
+    orig_block, orig_yield = s.block, s.yield_
+
+    def yield_(label):
+        orig_yield(label)
+        me = s.me()
+        if me is not None:
+            boundary[me.name] = False     # resumed after its first yield point: the operation is under way
+    s.yield_ = yield_
+    if hasattr(policy, 'bind'):
+        policy.bind(s, boundary)
 
     def block(label, cond, timeout=None):
         blocked.append(label[1] if len(label) > 1 else label[0])
@@ -193,18 +263,37 @@ def run_case(case, policy):
     s.block = block
     with s.patched(frappy.modulebase, threading=s.threading, time=s.time, mkthread=s.mkthread), \
             s.patched(frappy.protocol.dispatcher, threading=s.threading, currenttime=s.time):
-        node = Node({mn: {'cls': M, 'description': mn} for mn in case['mods']}, omit_unchanged_within=0)
+        # unchanged values: `omit` lists the attributes configured with update_unchanged='never'; '*' gives every module an
+        # omit_unchanged_within far longer than the run (virtual time advances by microseconds); everything else: window 0
+        omit = case.get('omit', [])
+        mcfg = {'cls': M, 'description': 'x'}
+        mcfg.update({a: {'update_unchanged': 'never'} for a in omit if a != '*'})
+        if '*' in omit:
+            mcfg['omit_unchanged_within'] = 1000
+        modcfg = {mn: dict(mcfg, description=mn) for mn in case['mods']}
+        modcfg.update({mn: dict(mcfg, description=mn, export=False) for mn in case.get('hidden_mods', [])})
+        node = Node(modcfg, omit_unchanged_within=0)
         info = Info(node)
+        omit_same = [[info.mid(mn), pobj.export] for mn in info.mods for pobj in node.modules[mn].parameters.values()
+                     if pobj.export and pobj.omit_unchanged_within > 0]
         _name(node.dispatcher._lock, 'disp')
         _name(getattr(node.dispatcher, '_subscription_lock', None), 'sub')
-        for mn in info.mods:
-            mo = node.modules[mn]
+        for mn, mo in node.modules.items():
             _name(mo.updateLock, 'upd:' + mn)
             _name(mo.accessLock, 'acc:' + mn)
+        for mn in info.mods:
+            mo = node.modules[mn]
             for pobj in mo.parameters.values():
                 if pobj.export and pobj.readerror:      # `value` starts as "not initialized"
                     mo.announceUpdate(pobj.name, pobj.value)
         cache0 = info.cache(node)
+
+        def completed():
+            """the dispatcher's tables after a completed operation (a reply was sent / an announced assignment returned)"""
+            d = node.dispatcher
+            tabs.append([len(events) - 1, {
+                'active': sorted(c.cid for c in d._active_connections),
+                'subs': sorted([k, sorted(c.cid for c in v)] for k, v in d._subscriptions.items() if v)}])
         if case.get('broken_logging'):
             # remote logging not set up: no RemoteLogHandler above the module loggers, so that
             # Module.setRemoteLogging -> ValueError('remote handler not found') on every *IDN? and disconnect
@@ -226,16 +315,18 @@ def run_case(case, policy):
             return cb
         for mn in info.mods:
             mo = node.modules[mn]
-            for a in FLOATS:
+            for a in FLOATS:      # (a parameter that is not exported gets no callback here: nothing is announced for it)
                 mo.addCallback(a, mkcb(info.mid(mn), info.pid(mn, info.attr[mn][a]), mo.parameters[a]))
         conns = {}
         for cid in range(1, case['nconn'] + 1):
-            conns[cid] = node.conns[cid] = SConn(cid, s, events, info, stat)
+            conns[cid] = node.conns[cid] = SConn(cid, s, events, info, stat, completed)
             node.dispatcher.add_connection(conns[cid])
 
         def handler(cid, script):
             conn = conns[cid]
-            for r in script:
+            for i, r in enumerate(script):
+                boundary['h%d' % cid] = i > 0         # a thread that has not started stands before its first operation anyway
+                s.yield_(('recv',))                   # the request arrives: other threads may run before the marker is written
                 rj = info.req(r)
                 events.append(['reqStart', cid, rj])
                 conn.current = rj
@@ -246,6 +337,7 @@ def run_case(case, policy):
                     except Exception:
                         ok = False
                     events.append(['reply', cid, rj, ok])
+                    completed()
                     conn.current = None
                     break
                 if r[0] == 'ident':
@@ -256,7 +348,8 @@ def run_case(case, policy):
             s.yield_(('end',))
 
         def updater(u, script):
-            for mn, a, e in script:
+            for i, (mn, a, e) in enumerate(script):
+                boundary['u%d' % u] = i > 0
                 mo = node.modules[mn]
                 if e[0] == 'e':
                     mo.announceUpdate(a, err=ERRS[e[1]][0]('x'))
@@ -264,7 +357,12 @@ def run_case(case, policy):
                     setattr(mo, a, float(e[1]))
                 if emitted.get(u):
                     events.append(['emitDone', u])
+                    completed()
                     emitted[u] = False
+                elif e[0] == 'v' and a in info.attr.get(mn, {}):
+                    stat['dropped'] += 1          # an unchanged value inside its omit window
+                elif a not in info.attr.get(mn, {}):
+                    stat['hidden'] += 1           # a parameter that is not exported (or of a module that is not)
             s.yield_(('end',))
 
         hs = sorted((int(c), scr) for c, scr in case['handlers'].items())
@@ -284,11 +382,12 @@ def run_case(case, policy):
     if result['aborted'] not in (None, 'deadlock'):
         raise RuntimeError(f'scheduler aborted ({result["aborted"]}) on case {json.dumps(case)}')
     setup = {'mods': [[mn, list(info.pars[mn])] for mn in info.mods],
-             'conns': sorted(conns), 'cache': cache0, 'logFails': sorted(conns) if case.get('broken_logging') else []}
-    obs = {'events': events, 'cache': cache1, 'result': result, 'setup': setup, 'stat': stat, 'blocked': blocked,
+             'conns': sorted(conns), 'cache': cache0, 'logFails': sorted(conns) if case.get('broken_logging') else [],
+             'omitSame': omit_same}
+    obs = {'events': events, 'cache': cache1, 'result': result, 'setup': setup, 'stat': stat, 'blocked': blocked, 'tabs': tabs,
            'sched': [[_tid(t), _label(l, info)] for t, l in s.trace],
            'handlers': [[cid, [info.req(r) for r in scr]] for cid, scr in hs],
-           'updaters': [[u, [[info.mid(mn), info.pid(mn, info.attr.get(mn, {}).get(a)), e] for mn, a, e in scr]] for u, scr in us],
+           'updaters': [[u, [[info.mid(mn), info.attr.get(mn, {}).get(a, '#' + a), e] for mn, a, e in scr]] for u, scr in us],
            'choices': [c for _, c, _ in s.choices], 'preempt': sum(1 for _, c, d in s.choices if c != d)}
     return s, obs
 
@@ -305,6 +404,11 @@ def _diff(a, b):
         if x != y:
             return {'index': i, 'model': x, 'impl': y}
     return None
+
+
+def _tabs(tabs):
+    """canonical form of the model's table snapshots: keys sorted"""
+    return [[i, {'active': t['active'], 'subs': sorted(t['subs'])}] for i, t in tabs]
 
 
 def _odd(sched):
@@ -324,12 +428,14 @@ def assess(obs, model, judge, model_ok=True):
         viols.append(('C08:deadlock', f'all threads blocked (deadlock); last lock waits: {obs["blocked"][-3:]}'))
     if 'driver_error' in judge:
         return viols, {'model': {'judge': judge}, 'impl': ev[:8]}
-    for clause in ('silent', 'snapshot', 'noloss'):
+    for clause in ('silent', 'snapshot', 'noloss', 'exported'):
         i = judge[clause]
         if i is None:
             continue
         bad = ev[i]
-        if clause == 'silent':
+        if clause == 'exported':
+            shape = 'update-of-unexported-parameter'
+        elif clause == 'silent':
             prev = [e for e in ev[:i] if e[0] == 'reply' and e[1] == bad[1]]
             kind = 'never-active'
             if prev:
@@ -366,12 +472,16 @@ def assess(obs, model, judge, model_ok=True):
             dis = {'model': {'trace': _diff(model['trace'], ev)}, 'impl': 'observable trace differs'}
         elif model['cache'] != obs['cache']:
             dis = {'model': {'cache': _diff(model['cache'], obs['cache'])}, 'impl': 'final cache differs'}
+        elif _tabs(model['tabs']) != obs['tabs']:
+            d = _diff(_tabs(model['tabs']), obs['tabs'])
+            dis = {'model': {'tables': d, 'event': ev[(d['model'] or d['impl'])[0]]},
+                   'impl': 'subscription tables (_active_connections, _subscriptions) differ after a completed operation'}
     return viols, dis
 
 
 def judge_case(ctx, case):
     """run + ask the driver for one case (shrinking, replay, corpus)"""
-    _, obs = run_case(case, ReplayThenDefault(case.get('choices', [])))
+    _, obs = run_case(case, policy_for(case))
     model, judge = ctx.driver.batch(requests(obs))
     viols, dis = assess(obs, model, judge, ctx.model_ok)
     return obs, model, judge, viols, dis
@@ -380,12 +490,21 @@ def judge_case(ctx, case):
 # ----------------------------------------------------------------------------------------
 # scenarios
 # ----------------------------------------------------------------------------------------
-def scn(kind, mods, handlers, updaters, broken_logging=False):
+def scn(kind, mods, handlers, updaters, broken_logging=False, omit=None, hidden_mods=None):
     case = {'mods': mods, 'nconn': len(handlers), 'handlers': {str(i + 1): h for i, h in enumerate(handlers)},
             'updaters': {str(i + 1): u for i, u in enumerate(updaters)}}
     if broken_logging:
         case['broken_logging'] = True
+    if omit:
+        case['omit'] = omit
+    if hidden_mods:
+        case['hidden_mods'] = hidden_mods
     return kind, case
+
+
+def gen_omit(rng):
+    r = rng.random()
+    return None if r < 0.6 else ['*'] if r < 0.75 else rng.sample(FLOATS, rng.randint(1, 3))
 
 
 A, D, I, X = 'activate', 'deactivate', ['ident'], ['disconnect']
@@ -428,6 +547,18 @@ CATALOGUE = [
     scn('broken-logging-disconnect', ['T'], [[[A, 'T'], X]], [[['T', 'value', V(1)], ['T', 'a', V(2)]]], True),
     scn('broken-logging-reactivate', ['T', 'T2'], [[[A, 'T:value'], I, [A, 'T2']], [[A, None], X]],
         [[['T', 'value', V(1)], ['T2', 'value', V(2)]]], True),
+    # ---- unchanged values are not re-announced (update_unchanged='never' / a long omit_unchanged_within)
+    scn('omit-unchanged', ['T'], [[[A, 'T:value'], [D, 'T:value']]], [[['T', 'value', V(1)], ['T', 'value', V(1)], ['T', 'value', V(2)]]],
+        omit=['value']),
+    scn('omit-unchanged-initial', ['T'], [[[A, 'T']]], [[['T', 'a', V(0)], ['T', 'ab', V(0)], ['T', 'a', V(3)]]], omit=['a']),
+    scn('omit-unchanged-error-between', ['T'], [[[A, None]]], [[['T', 'value', V(1)], ['T', 'value', E(0)], ['T', 'value', V(1)]]],
+        omit=['*']),
+    # ---- parameters / modules that are not exported: assigned to, never delivered, cannot be activated
+    scn('unexported-parameter', ['T'], [[[A, None], [A, 'T:h'], [D, None]]], [[['T', 'h', V(4)], ['T', 'value', V(5)], ['T', 'h', E(0)]]]),
+    scn('unexported-module', ['T'], [[[A, None], [A, 'H'], [A, 'H:value']], [[A, 'T'], [D, 'H']]],
+        [[['H', 'value', V(3)], ['T', 'value', V(4)], ['H', 'a', E(0)]]], hidden_mods=['H']),
+    scn('omit-unchanged-two-updaters', ['T'], [[[A, 'T:_a']], [[A, 'T'], [D, 'T']]], [[['T', 'a', V(2)], ['T', 'a', V(2)]], [['T', 'a', V(2)]]],
+        omit=['a', 'value']),
 ]
 
 
@@ -461,18 +592,139 @@ def gen_case(rng):
         out = []
         for _ in range(rng.randint(1, 3)):
             e = E(rng.randrange(len(ERRS))) if rng.random() < 0.25 else V(rng.randint(1, 9))
-            out.append([rng.choice(mods), rng.choice(FLOATS), e])
-            if e[0] == 'e' and rng.random() < 0.5:
-                out.append(list(out[-1]))
+            out.append([rng.choice(mods + hidden), rng.choice(FLOATS + ['h'] if hidden else FLOATS), e])
+            if rng.random() < (0.5 if e[0] == 'e' or omit else 0.1):
+                out.append(list(out[-1]))      # the same error / the same value again
         return out[:3]
+    omit = gen_omit(rng)
+    hidden = ['H'] if rng.random() < 0.2 else []
+    if hidden:
+        specs += ['H', 'H:value', 'T:h']
     handlers = [script() for _ in range(rng.choice([1, 1, 2, 2, 3]))]
     updaters = [assignments() for _ in range(rng.choice([1, 1, 2]))]
-    return scn('generated', mods, handlers, updaters, rng.random() < 0.15)
+    return scn('generated', mods, handlers, updaters, rng.random() < 0.15, omit, hidden)
 
 
 # ----------------------------------------------------------------------------------------
+# operation-level histories: whole requests / assignments in a given or random global order (SerialPolicy).  What an
+# operation leaves behind in the dispatcher's tables shows only in what a LATER operation of another thread does, so these
+# runs are long (several activations, endings and assignments per thread) and have no preemption inside an operation.
+# ----------------------------------------------------------------------------------------
+def cross_scope_matrix():
+    """two connections, every pair of scope kinds (whole node / module / parameter / another parameter), both activation
+    orders, every way the second connection can end (matching deactivate, the module of its parameter, the global deactivate
+    that matches nothing, *IDN?, disconnect), assignments to two parameters before the first activation's end, between the two
+    ends and after both"""
+    scopes = [None, 'T', 'T:value', 'T:_a']
+    out = []
+    for sa in scopes:
+        for sb in scopes:
+            ends = [[D, sb], I, X]
+            if sb and ':' in sb:
+                ends.append([D, 'T'])
+            if sb:
+                ends.append([D, None])
+            for end in ends:
+                for first in (['h1', 'h2'], ['h2', 'h1']):
+                    u1 = [['T', a, V(k + i)] for k in (1, 3, 5) for i, a in enumerate(('value', 'a'))]
+                    kind, case = scn('cross-scope', ['T'], [[[A, sa], [D, sa]], [[A, sb], end]], [u1])
+                    case['serial'] = first + ['u1', 'u1', 'h2', 'u1', 'u1', 'h1', 'u1', 'u1']
+                    out.append((kind, case))
+    return out
+
+
+EXPORT = {'value': 'value', 'a': '_a', 'ab': '_ab', 'target': 'target', 'target_max': 'target_max'}
+
+
+def gen_history(rng):
+    """a long random history: 2-3 connections with 2-6 requests each (deactivations mostly of something the connection
+    activated itself), 1-2 updaters with 3-8 assignments, most of the parameter scopes and assignments on 1-2 `hot`
+    parameters so that the activations of different connections overlap; the global order of the operations is random"""
+    mods = rng.choice([['T'], ['T'], ['T', 'T2']])
+    hot = rng.sample(sorted(EXPORT), rng.choice([1, 2]))
+
+    def spec():
+        r = rng.random()
+        if r < 0.25:
+            return None
+        if r < 0.45:
+            return rng.choice(mods)
+        if r < 0.85:
+            return mods[0] + ':' + EXPORT[rng.choice(hot)]
+        return rng.choice(mods) + ':' + rng.choice(sorted(EXPORT.values()) + ['status'])
+
+    def script():
+        out, mine = [], []
+        for _ in range(rng.randint(2, 6)):
+            r = rng.random()
+            if r < 0.45 or not mine:
+                mine.append(spec())
+                out.append([A, mine[-1]])
+            elif r < 0.85:
+                out.append([D, rng.choice(mine) if rng.random() < 0.8 else spec()])
+            elif r < 0.94:
+                out.append(I)
+                mine = []
+            else:
+                out.append(X)
+                break
+        return out
+
+    def assignments():
+        out = []
+        for _ in range(rng.randint(3, 8)):
+            mn, a = (mods[0], rng.choice(hot)) if rng.random() < 0.7 else \
+                (rng.choice(mods + hidden), rng.choice(FLOATS + ['h'] if hidden else FLOATS))
+            out.append([mn, a, E(rng.randrange(len(ERRS))) if rng.random() < 0.15 else V(rng.randint(1, 3 if omit else 9))])
+        return out
+    omit = gen_omit(rng)
+    hidden = ['H'] if rng.random() < 0.2 else []
+    handlers = [script() for _ in range(rng.choice([2, 2, 3]))]
+    updaters = [assignments() for _ in range(rng.choice([1, 1, 2]))]
+    kind, case = scn('history', mods, handlers, updaters, rng.random() < 0.1, omit, hidden)
+    order = [n for n, scr in [('h%d' % (i + 1), h) for i, h in enumerate(handlers)]
+             + [('u%d' % (i + 1), u) for i, u in enumerate(updaters)] for _ in scr]
+    rng.shuffle(order)
+    case['serial'] = order
+    return kind, case
+
+
+def serial_ops(case):
+    """the operations of a serial case in their global order: [(thread name, script item)]"""
+    left = {'h' + k: list(v) for k, v in case['handlers'].items()}
+    left.update({'u' + k: list(v) for k, v in case['updaters'].items()})
+    ops = []
+    for name in case['serial']:
+        if left.get(name):
+            ops.append((name, left[name].pop(0)))
+    for name in sorted(left):
+        ops += [(name, it) for it in left[name]]
+    return ops
+
+
+def shrink_serial(ctx, case, sig):
+    """fewer operations (the global order of the remaining ones is kept), still failing with the same signature"""
+    def build(ops):
+        c = dict(case, handlers={k: [] for k in case['handlers']}, updaters={k: [] for k in case['updaters']},
+                 serial=[n for n, _ in ops])
+        for n, it in ops:
+            c['handlers' if n[0] == 'h' else 'updaters'][n[1:]].append(it)
+        return c
+
+    def fails_with(c):
+        try:
+            return any(v[0] == sig for v in judge_case(ctx, c)[3])
+        except RuntimeError:
+            return False
+    small = build(ddmin(serial_ops(case), lambda ops: fails_with(build(ops)), max_tests=120))
+    return small if fails_with(small) else case
+
+
 def shrink(ctx, case, sig):
     """smaller schedule, then smaller scripts, still failing with the same signature"""
+    if 'serial' in case and 'choices' not in case:
+        return shrink_serial(ctx, case, sig)
+
     def fails_with(c):
         try:
             return any(v[0] == sig for v in judge_case(ctx, c)[3])
@@ -501,8 +753,10 @@ def run(ctx):
                 'at least one update was delivered by an updater broadcast (so an assignment happened while a scope was in force) '
                 'and at least one by an activation snapshot')
     rng = ctx.rng
+    res.rule += ('; an operation-level history (no preemption inside an operation) is non-trivial under the same rule, its '
+                 'deviations being the changes of thread between operations')
     big = ctx.tier == 'thorough' or ctx.escalated
-    total = ctx.budget(3000, 40000)
+    total = ctx.budget(2600, 36000)
     scenarios = list(CATALOGUE) + [gen_case(rng) for _ in range(ctx.budget(12, 120))]
     per = max(8, total // len(scenarios))
     shrunk = [0]
@@ -520,6 +774,10 @@ def run(ctx):
             res.count('blocked-on-' + str(b).split(':')[0])
         if not obs['blocked']:
             res.count('never-blocked')
+        if case.get('omit'):
+            res.count('omit-window.' + ('unchanged-value-dropped' if obs['stat'].get('dropped') else 'nothing-dropped'))
+        if obs['stat'].get('hidden'):
+            res.count('assignment-to-unexported-parameter')
         if obs['preempt'] and st['bcast'] and st['snap']:
             res.nontriv(case)
             if len(res.samples) < 4 and len(obs['events']) < 16 and st['during'] and kind not in sampled:
@@ -540,6 +798,7 @@ def run(ctx):
                 res.disagreements.append(dict(dis, case=case))
             for sig, what in viols:
                 res.count('violation.' + sig)
+                res.count('violation-found-in.' + kind.split('+')[0])
                 if any(v['sig'] == sig for v in res.violations):
                     continue
                 small = case
@@ -558,8 +817,8 @@ def run(ctx):
         for fn in sorted(os.listdir(cdir)):
             if fn.endswith('.json'):
                 case = json.load(open(os.path.join(cdir, fn)))['case']
-                _, obs = run_case(case, ReplayThenDefault(case.get('choices', [])))
-                record('corpus', dict(case, choices=obs['choices']), obs)
+                _, obs = run_case(case, policy_for(case))
+                record('corpus', case if 'serial' in case and 'choices' not in case else dict(case, choices=obs['choices']), obs)
     # ---------- catalogue + generated scenarios ----------
     for kind, base in scenarios:
         def make_run(policy, base=base):
@@ -580,6 +839,15 @@ def run(ctx):
             _, obs = run_case(base, RandomPolicy(rng, rng.choice([0.15, 0.3, 0.5])))
             if fresh(obs):
                 record(kind, dict(base, choices=obs['choices']), obs)
+    # ---------- operation-level histories ----------
+    histories = cross_scope_matrix() + [gen_history(rng) for _ in range(ctx.budget(250, 3000))]
+    for kind, base in histories:
+        _, obs = run_case(base, policy_for(base))
+        record(kind, base, obs)
+        if kind == 'history' and rng.random() < 0.34:      # the same scripts, random order, a few preemptions inside operations
+            plain = {k: v for k, v in base.items() if k != 'serial'}
+            _, obs = run_case(plain, SerialPolicy(rng=rng, p_fine=rng.choice([0.03, 0.08])))
+            record(kind + '+preemptions', dict(plain, choices=obs['choices']), obs)
     flush()
     if not res.samples and pending == []:
         res.notes.append('no small non-trivial sample met the sampling filter')
